@@ -10,6 +10,7 @@ import (
 
 	"verif/harness/chain"
 	"verif/harness/h"
+	_ "verif/harness/warm"
 )
 
 var P = h.New("C05", "exploration",
